@@ -96,6 +96,9 @@ def gen(tier, seed, shard, nshards):
             W = _gc.near_chain(("C10", seed, "nc", k))
             rng = util.rng_for("C10", seed, "ncI", k)
             yield "weightedI", {"W": W, "I": int(rng.integers(0, 1 << len(W)))}
+    for k in range(n["weighted"] // 3):
+        if k % nshards == shard:
+            yield "library-chain-edited", {"k": k, "seed": seed}
     for k in range(n["sampled"]):
         if k % nshards == shard:
             out = _gc.sampled_dag(("C10", seed, "sd", k), 6, 12, max_edges=11)
@@ -205,6 +208,11 @@ def judge(family, case, rec):
     elif family == "sampled-dagI":
         out = list(case["masks"])
         _judge_dag(U, out, gmat.hostile_array(gmat.to_np(out), sum(out) + case["I"]), case["I"], family, case, rec, None)
+    elif family == "library-chain-edited":
+        A = _gc.library_chain_edited(U, ("C10lc", case["seed"], case["k"]))
+        rngI = util.rng_for("C10lcI", case["seed"], case["k"])
+        rec.count("graphs-built-from-library-chain_graph")
+        _judge_dag(U, gmat.masks(A), A, int(rngI.integers(0, 1 << len(A))), family, case, rec, None, chain_variants=(True, False))
     elif family == "weightedI":
         W = case["W"]
         _judge_dag(U, gmat.masks(W), W, case["I"], family, case, rec, None)
